@@ -236,6 +236,28 @@ class VGC:
         for st in body:
             self._stmt(cls_q, m, st, env, ctx, depth, out, vis_env)
 
+    @staticmethod
+    def _none_test(m, test, env) -> Optional[bool]:
+        """the truth of `<param> is None` / `<param> is not None` for a parameter of `m` whose default is None, when the environment
+        of this call decides it (bound to node-derived values: not None; not bound at all: the default)"""
+        if not (isinstance(test, ast.Compare) and len(test.ops) == 1 and isinstance(test.ops[0], (ast.Is, ast.IsNot)) and isinstance(test.left, ast.Name)
+                and isinstance(test.comparators[0], ast.Constant) and test.comparators[0].value is None):
+            return None
+        a = m.node.args
+        pos = a.posonlyargs + a.args
+        defaults = dict(zip([p.arg for p in pos][len(pos) - len(a.defaults):], a.defaults))
+        defaults.update({p.arg: d for p, d in zip(a.kwonlyargs, a.kw_defaults) if d is not None})
+        d = defaults.get(test.left.id)
+        if not (isinstance(d, ast.Constant) and d.value is None):
+            return None
+        if test.left.id in env and env[test.left.id]:
+            is_none = False
+        elif test.left.id not in env:
+            is_none = True
+        else:
+            return None
+        return is_none if isinstance(test.ops[0], ast.Is) else not is_none
+
     def _stmt(self, cls_q, m, st, env, ctx, depth, out, vis_env) -> None:
         if isinstance(st, (ast.FunctionDef, ast.AsyncFunctionDef, ast.ClassDef)):
             return
@@ -278,8 +300,14 @@ class VGC:
             return
         if isinstance(st, ast.If):
             self._expr_effects(cls_q, m, st.test, env, ctx, depth, out, vis_env)
-            self._block(cls_q, m, st.body, env, ctx, depth, out, vis_env)
-            self._block(cls_q, m, st.orelse, env, ctx, depth, out, vis_env)
+            # `if children is None: children = ast.iter_child_nodes(node)` on a parameter that defaults to None: at THIS call the
+            # parameter was handed a value (or was not), so only one side is taken -- a helper that walks "all children unless told
+            # which" must not count as walking all children where it was told which
+            verdict = self._none_test(m, st.test, env)
+            if verdict is not False:
+                self._block(cls_q, m, st.body, env, ctx, depth, out, vis_env)
+            if verdict is not True:
+                self._block(cls_q, m, st.orelse, env, ctx, depth, out, vis_env)
             return
         if isinstance(st, (ast.With, ast.AsyncWith)):
             c2 = set(ctx)
